@@ -87,8 +87,9 @@ def observe (ast : Ast) (text : List Char) : String × String :=
         "FAIL:unanchored-vs-glob"
       -- shortest/longest with multi-character collating elements is outside the defined notation
       -- (POSIX locale has none; which of `a` / `ab` a bracket takes first is unspecified): not compared
-      else if hasSeq ast then "ok"
-      else match trims.find? (fun (sd, ln) => specTrim sd ln ast text != trimAst sd ln ast text) with
+      -- … on the PREFIX side; suffix removal is exact for every pattern (`suffix_trim_correct`)
+      else match (if hasSeq ast then trims.filter (fun x => x.1 == TrimSide.suffix) else trims).find?
+          (fun (sd, ln) => specTrim sd ln ast text != trimAst sd ln ast text) with
         | some (sd, ln) => s!"FAIL:trim-{repr sd}-{repr ln}"
         | none => "ok"
     (obs, spec)
@@ -114,7 +115,12 @@ def observeShell (subj q1 p1 q2 p2 : List Char) : String × String :=
   let a1 := parseAtoms pa
   let a2 := parseAtoms pb
   let spec :=
-    if !(astDefined a1 && astDefined a2) || hasSeq a1 || hasSeq a2 then "-"
+    if !(astDefined a1 && astDefined a2) then "-"
+    else if hasSeq a1 || hasSeq a2 then
+      -- multi-character elements: only the suffix trims (exact for every pattern) are judged
+      let sfx := trims.filter (fun x => x.1 == TrimSide.suffix)
+      if sfx.any (fun (sd, ln) => (subj :: arr).any fun v => specTrim sd ln a1 v != trimApply sd ln pa v)
+      then "FAIL:suffix-trim" else "ok"
     else
       let sarm := match specCase [a1, a2, [Atom.anyString]] subj with
         | some 0 => "1" | some 1 => "2" | some _ => "0" | none => "none"
